@@ -367,6 +367,11 @@ let run ~tier ~seed ~only acc =
     ("sparse_prefix_4g", { nocfg with prefix = Int64.add 0x100000000L 12345L }, rentries_blocks (case_rng ~seed:7 ~engine ~index:0) ~nkeys:40 ~vlen:100);
     ("sparse_prefix_4g", { nocfg with comp = 1; prefix = Int64.sub 0x100000000L 700L }, rentries_blocks (case_rng ~seed:8 ~engine ~index:0) ~nkeys:60 ~vlen:100);
     ("key_16k", nocfg, [ ("a", "1"); (String.make 16384 'k', "2"); (String.make 16384 'k' ^ "x", String.make 16384 'v') ]);
+    (* configured block sizes of 4 GiB and more (one block per file): the configured size is what the cut rule uses and
+       what the trailer reports *)
+    ("block_size_4g", { nocfg with block_size = Some (1 lsl 32) }, rentries_blocks (case_rng ~seed:9 ~engine ~index:0) ~nkeys:60 ~vlen:200);
+    ("block_size_4g", { nocfg with block_size = Some ((1 lsl 32) + 4096); comp = 2 }, rentries_blocks (case_rng ~seed:10 ~engine ~index:0) ~nkeys:90 ~vlen:300);
+    ("block_size_4g", { nocfg with block_size = Some (1 lsl 40); prefix = 77L }, rentries_blocks (case_rng ~seed:11 ~engine ~index:0) ~nkeys:30 ~vlen:100);
   ] in
   List.iter (fun (klass, c, ops) -> if want () then check_case acc ~klass ~with_info:true c ops; incr idx) directed;
   (* every separator pair with the block cut forced between the two keys *)
